@@ -15,7 +15,10 @@ import (
 	"testing"
 
 	"golang.org/x/perf/benchfmt"
+	"golang.org/x/perf/benchproc/internal/parse"
 )
+
+type parseSyntaxError = parse.SyntaxError
 
 type verifArg struct {
 	Name  string  `json:"name"`
@@ -174,6 +177,10 @@ func TestVerifBounded(t *testing.T) {
 		fmt.Printf("BOUNDED-RESULT {\"cases\": %d, \"failures\": %d, \"bound\": \"all names of length <= %d over {a b / - = 1} x %d keys\", \"exhaustive\": true}\n", n, fails, maxLen, len(keys))
 	case "keyorder":
 		verifKeyOrder(t, tier)
+	case "filtersem":
+		verifFilterSem(t, tier)
+	case "filtersyntax":
+		verifFilterSyntax(t, tier)
 	default:
 		t.Skip("unknown bounded check " + which)
 	}
@@ -416,4 +423,398 @@ func verifKeyOrder(t *testing.T, tier string) {
 		}
 	}
 	fmt.Printf("BOUNDED-RESULT {\"cases\": %d, \"failures\": %d, \"bound\": \"single-field orders (alpha over 9 strings, num over 24 spellings incl. every SI/IEC prefix, fixed list, first observation) against reference semantics; .config sub-field observation order with late keys and an early flatten, 4 projections; order axioms and arrangement independence of SortKeys on every key set\", \"exhaustive\": false}\n", n, fails)
+}
+
+
+// ---------------------------------------------------------------------------
+// Filter semantics (C06) and expression syntax (C07)
+
+// A reference filter expression: a tree rendered to text in varied syntax and
+// evaluated per measurement under ordinary boolean semantics.
+type verifExpr struct {
+	op   byte // 'a' atom, '!', '&', '|', 't' (the constant *)
+	key  string
+	val  string
+	kids []*verifExpr
+}
+
+func (e *verifExpr) eval(res *benchfmt.Result, i int) bool {
+	switch e.op {
+	case 't':
+		return true
+	case 'a':
+		if e.key == ".unit" {
+			v := res.Values[i]
+			return v.Unit == e.val || (v.OrigUnit != "" && v.OrigUnit == e.val)
+		}
+		return string(verifRefKey(res, e.key)) == e.val
+	case '!':
+		return !e.kids[0].eval(res, i)
+	case '&':
+		for _, k := range e.kids {
+			if !k.eval(res, i) {
+				return false
+			}
+		}
+		return true
+	case '|':
+		for _, k := range e.kids {
+			if k.eval(res, i) {
+				return true
+			}
+		}
+		return false
+	}
+	panic("bad op")
+}
+
+func verifRefKey(res *benchfmt.Result, key string) []byte {
+	if strings.HasPrefix(key, ".") || strings.HasPrefix(key, "/") {
+		return verifRefExtract(res.Name, key)
+	}
+	for _, c := range res.Config {
+		if c.Key == key {
+			return c.Value
+		}
+	}
+	return nil
+}
+
+func verifWord(s string, style int) string {
+	plain := s != "" && s != "AND" && s != "OR" && !strings.ContainsAny(s, "\" ():@,\\/") && s[0] != '-' && s[0] != '*'
+	for _, r := range s {
+		if r <= ' ' || r >= 0x7f {
+			plain = false
+		}
+	}
+	if plain && style%2 == 0 {
+		return s
+	}
+	return strconv.Quote(s)
+}
+
+func (e *verifExpr) render(style int, top bool) string {
+	switch e.op {
+	case 't':
+		return "*"
+	case 'a':
+		return verifWord(e.key, style) + ":" + verifWord(e.val, style/2)
+	case '!':
+		k := e.kids[0]
+		if k.op == 'a' || k.op == 't' {
+			return "-" + k.render(style, false)
+		}
+		return "-(" + k.render(style, true) + ")"
+	case '&', '|':
+		sep := " "
+		if e.op == '&' && style%3 == 1 {
+			sep = " AND "
+		}
+		if e.op == '|' {
+			sep = " OR "
+		}
+		var parts []string
+		for _, k := range e.kids {
+			r := k.render(style, false)
+			if (k.op == '&' || k.op == '|') && k.op != e.op {
+				r = "(" + r + ")"
+			} else if k.op == e.op {
+				r = "(" + r + ")"
+			}
+			parts = append(parts, r)
+		}
+		return strings.Join(parts, sep)
+	}
+	panic("bad op")
+}
+
+func verifResults() []*benchfmt.Result {
+	units := []string{"ns/op", "B/op", "allocs/op", "MB/s", "x"}
+	var out []*benchfmt.Result
+	for _, nv := range []int{0, 1, 2, 3, 31, 32, 33, 40, 63, 64, 65, 96} {
+		for variant := 0; variant < 3; variant++ {
+			r := &benchfmt.Result{Name: benchfmt.Name([]string{"Foo/a=1-4", "Bar", "Foo/a=2/b=x y"}[variant])}
+			r.Config = []benchfmt.Config{{Key: "f1", Value: []byte([]string{"v1", "v2", "x y"}[variant]), File: true}, {Key: "c d", Value: []byte("q\"z"), File: true}}
+			for i := 0; i < nv; i++ {
+				u := units[(i*7+variant*3+i/5)%len(units)]
+				if variant == 1 && nv >= 32 {
+					u = units[0] // all the same unit: the all-ones mask
+				}
+				v := benchfmt.Value{Value: float64(i), Unit: u}
+				if u == "ns/op" {
+					v = benchfmt.Value{Value: float64(i) * 1e-9, Unit: "sec/op", OrigValue: float64(i), OrigUnit: "ns/op"}
+				}
+				r.Values = append(r.Values, v)
+			}
+			out = append(out, r)
+		}
+	}
+	return out
+}
+
+func verifFilterSem(t *testing.T, tier string) {
+	atoms := []*verifExpr{
+		{op: 'a', key: "f1", val: "v1"}, {op: 'a', key: "f1", val: "v2"}, {op: 'a', key: "f1", val: "x y"},
+		{op: 'a', key: ".unit", val: "ns/op"}, {op: 'a', key: ".unit", val: "sec/op"}, {op: 'a', key: ".unit", val: "B/op"}, {op: 'a', key: ".unit", val: "x"},
+		{op: 'a', key: ".name", val: "Foo"}, {op: 'a', key: "/a", val: "1"}, {op: 'a', key: "/gomaxprocs", val: "4"}, {op: 'a', key: "c d", val: "q\"z"},
+		{op: 'a', key: "missing", val: ""}, {op: 't'},
+	}
+	var exprs []*verifExpr
+	exprs = append(exprs, atoms...)
+	for _, a := range atoms {
+		exprs = append(exprs, &verifExpr{op: '!', kids: []*verifExpr{a}})
+	}
+	sel := atoms
+	if tier != "thorough" {
+		sel = []*verifExpr{atoms[0], atoms[1], atoms[3], atoms[5], atoms[7], atoms[10], atoms[12]}
+	}
+	for _, a := range sel {
+		for _, b := range sel {
+			exprs = append(exprs, &verifExpr{op: '&', kids: []*verifExpr{a, b}}, &verifExpr{op: '|', kids: []*verifExpr{a, b}})
+			for _, c := range []*verifExpr{atoms[3], atoms[1], atoms[5]} {
+				and := &verifExpr{op: '&', kids: []*verifExpr{a, b}}
+				or := &verifExpr{op: '|', kids: []*verifExpr{a, b}}
+				exprs = append(exprs,
+					&verifExpr{op: '&', kids: []*verifExpr{a, b, c}}, &verifExpr{op: '|', kids: []*verifExpr{a, b, c}},
+					&verifExpr{op: '|', kids: []*verifExpr{and, c}}, &verifExpr{op: '&', kids: []*verifExpr{or, c}},
+					&verifExpr{op: '!', kids: []*verifExpr{and}}, &verifExpr{op: '!', kids: []*verifExpr{&verifExpr{op: '|', kids: []*verifExpr{and, c}}}},
+					&verifExpr{op: '&', kids: []*verifExpr{c, &verifExpr{op: '!', kids: []*verifExpr{or}}}})
+			}
+		}
+	}
+	results := verifResults()
+	n, fails := 0, 0
+	bad := func(f string, args ...any) {
+		fails++
+		if fails <= 12 {
+			t.Errorf("REPLAY-FAIL "+f, args...)
+		}
+	}
+	for ei, e := range exprs {
+		for style := 0; style < 6; style++ {
+			if tier != "thorough" && style != ei%6 && style != (ei+3)%6 {
+				continue
+			}
+			text := e.render(style, true)
+			f, err := NewFilter(text)
+			if err != nil {
+				bad("NewFilter(%q): %v", text, err)
+				break
+			}
+			for _, res := range results {
+				n++
+				before := res.Clone()
+				m, err := f.Match(res)
+				if err != nil {
+					bad("%q Match: %v", text, err)
+					break
+				}
+				if len(res.Values) != len(before.Values) || len(res.Config) != len(before.Config) {
+					bad("%q: Match modified the result", text)
+				}
+				all, any := true, false
+				var keep []benchfmt.Value
+				mism := false
+				for i := range res.Values {
+					want := e.eval(res, i)
+					if m.Test(i) != want {
+						bad("%q on %s with %d values: measurement %d (%s) matched=%v, want %v", text, res.Name, len(res.Values), i, res.Values[i].Unit, m.Test(i), want)
+						mism = true
+						break
+					}
+					all = all && want
+					any = any || want
+					if want {
+						keep = append(keep, res.Values[i])
+					}
+				}
+				if mism {
+					continue
+				}
+				if len(res.Values) > 0 && (m.All() != all || m.Any() != any) {
+					bad("%q on %s with %d values: All=%v Any=%v, want %v %v", text, res.Name, len(res.Values), m.All(), m.Any(), all, any)
+					continue
+				}
+				c := res.Clone()
+				got, err := f.Apply(c)
+				if err != nil {
+					bad("%q Apply: %v", text, err)
+					continue
+				}
+				if len(res.Values) > 0 {
+					if got != any || len(c.Values) != len(keep) {
+						bad("%q on %s with %d values: Apply=%v keeping %d, want %v keeping %d", text, res.Name, len(res.Values), got, len(c.Values), any, len(keep))
+						continue
+					}
+					for i := range keep {
+						if c.Values[i] != keep[i] {
+							bad("%q on %s: Apply kept the wrong measurement at %d", text, res.Name, i)
+							break
+						}
+					}
+				}
+			}
+		}
+	}
+	// fixed value lists in projections remove exactly the results whose value is not listed
+	for _, tc := range []struct{ expr, key string }{{".fullname@(Bar Foo/a=1-4)", ".fullname"}, {".name@(Foo)", ".name"}, {"f1@(v2 v1)", "f1"}, {"/a@(2)", "/a"}} {
+		var pp ProjectionParser
+		f, _ := NewFilter("*")
+		if _, err := pp.Parse(tc.expr, f); err != nil {
+			bad("Parse(%q): %v", tc.expr, err)
+			continue
+		}
+		list := strings.Fields(strings.Trim(tc.expr[strings.Index(tc.expr, "@")+1:], "()"))
+		for _, res := range results {
+			n++
+			val := string(verifRefKey(res, tc.key))
+			want := false
+			for _, l := range list {
+				if l == val {
+					want = true
+				}
+			}
+			m, _ := f.Match(res)
+			if len(res.Values) > 0 && m.Any() != want {
+				bad("projection %q on %s: kept=%v, want %v (value %q)", tc.expr, res.Name, m.Any(), want, val)
+			}
+		}
+	}
+	fmt.Printf("BOUNDED-RESULT {\"cases\": %d, \"failures\": %d, \"bound\": \"%d expression trees over 13 atoms (depth <= 3, NOT/AND/OR, juxtaposition and AND, quoted and bare words) x 36 results with 0,1,2,3,31,32,33,40,63,64,65,96 measurements: Test per measurement, All, Any, Apply, Match leaves the result untouched; 4 fixed-list projections\", \"exhaustive\": false}\n", n, fails, len(exprs))
+}
+
+func verifFilterSyntax(t *testing.T, tier string) {
+	n, fails := 0, 0
+	bad := func(f string, args ...any) {
+		fails++
+		if fails <= 12 {
+			t.Errorf("REPLAY-FAIL "+f, args...)
+		}
+	}
+	safely := func(what string, f func() error) (err error, panicked bool) {
+		defer func() {
+			if r := recover(); r != nil {
+				bad("%s panicked: %v", what, r)
+				panicked = true
+			}
+		}()
+		return f(), false
+	}
+	checkErr := func(what, text string, err error) {
+		if err == nil {
+			return
+		}
+		type offsetter interface{ Error() string }
+		if se, ok := err.(interface{ Error() string }); ok {
+			_ = se
+		}
+		// the error must be positioned inside the text
+		if pe, ok := err.(*parseSyntaxError); ok {
+			if pe.Off < 0 || pe.Off > len(text) {
+				bad("%s(%q): error offset %d outside the text", what, text, pe.Off)
+			}
+		}
+	}
+	// 1. any string is expressible as a quoted word; unquoted when it has no special character
+	strs := []string{"a", "a b", "", "\\", "a\\", "\\\\", "\"", "a\"b", "(", ")", ":", "-x", "*", "@", ",", "AND", "OR", "voil\u00e0", "\u0105", "\u00a0", "x\ty", "/re/", "a/b", "k=v", "\x00", "\xff"}
+	res := func(k, v string) *benchfmt.Result {
+		return &benchfmt.Result{Name: benchfmt.Name("N"), Config: []benchfmt.Config{{Key: k, Value: []byte(v), File: true}}, Values: []benchfmt.Value{{Value: 1, Unit: "u"}}}
+	}
+	for _, k := range strs {
+		for _, v := range strs {
+			if k == "" || strings.HasPrefix(k, ".") || strings.HasPrefix(k, "/") {
+				continue
+			}
+			for _, prefix := range []string{"", "x:y ", "x:y AND ", "-x:y ", "(x:y OR * ) "} {
+				n++
+				text := prefix + strconv.Quote(k) + ":" + strconv.Quote(v)
+				var f *Filter
+				err, p := safely("NewFilter("+text+")", func() error { var e error; f, e = NewFilter(text); return e })
+				if p {
+					continue
+				}
+				if err != nil {
+					bad("NewFilter(%q): %v", text, err)
+					continue
+				}
+				if prefix != "" {
+					continue
+				}
+				for _, other := range []string{v, v + "x", "", "zz"} {
+					m, _ := f.Match(res(k, other))
+					if m.Any() != (other == v) {
+						bad("NewFilter(%q) on %s=%q: matched=%v", text, k, other, m.Any())
+					}
+				}
+			}
+		}
+		plain := k != "" && k != "AND" && k != "OR" && !strings.ContainsAny(k, "\" ():@,\\\t\x00") && k[0] != '-' && k[0] != '*' && !strings.ContainsRune(k, 0xa0)
+		if plain {
+			n++
+			text := "k:" + k
+			f, err := NewFilter(text)
+			if err != nil {
+				bad("NewFilter(%q): %v", text, err)
+			} else if m, _ := f.Match(res("k", k)); !m.Any() {
+				bad("NewFilter(%q) does not match k=%q", text, k)
+			}
+		}
+	}
+	// 2. bad expressions are rejected
+	rejects := []string{"(a:b", "a:b)", "a:\"b", "a:/b", "a", "a:", ":b", "a:b c", "-", "a:(b", "a:()", "()", "a:b OR", "OR a:b",
+		".config:x", ".config:x f1:v1", "f1:v1 .config:x", ".config:x OR f1:v1", "-(.config:x OR *)", "\"\":x", "\"\":x f1:v1", "f1:v1 \"\":x"}
+	for _, text := range rejects {
+		n++
+		var f *Filter
+		err, p := safely("NewFilter("+text+")", func() error { var e error; f, e = NewFilter(text); return e })
+		if p {
+			continue
+		}
+		if err == nil {
+			bad("NewFilter(%q) is accepted", text)
+			if f != nil {
+				safely("Match after NewFilter("+text+")", func() error { _, e := f.Match(res("f1", "v1")); return e })
+			}
+		}
+		checkErr("NewFilter", text, err)
+	}
+	projRejects := []string{".unit", "a,.unit", "a@zzz", ".config@(a b)", "a@()", "a@(", "a@", "a,,b", "(a)"}
+	for _, text := range projRejects {
+		n++
+		var pp ProjectionParser
+		f, _ := NewFilter("*")
+		err, p := safely("Parse("+text+")", func() error { _, e := pp.Parse(text, f); return e })
+		if !p && err == nil {
+			bad("projection %q is accepted", text)
+		}
+	}
+	// 3. every short text over the syntax alphabet: no panic, no hang, errors positioned inside the text
+	alpha := "a\"\\():-*/ @,O"
+	maxLen := 5
+	if tier == "thorough" {
+		maxLen = 6
+	}
+	var rec func(buf []byte)
+	rec = func(buf []byte) {
+		text := string(buf)
+		n++
+		var ferr error
+		safely("NewFilter("+text+")", func() error { _, ferr = NewFilter(text); return nil })
+		checkErr("NewFilter", text, ferr)
+		if len(buf) <= maxLen-1 {
+			var pp ProjectionParser
+			f, _ := NewFilter("*")
+			var perr error
+			safely("Parse("+text+")", func() error { _, perr = pp.Parse(text, f); return nil })
+			checkErr("Parse", text, perr)
+		}
+		if len(buf) == maxLen {
+			return
+		}
+		for i := 0; i < len(alpha); i++ {
+			rec(append(buf, alpha[i]))
+		}
+	}
+	rec(make([]byte, 0, maxLen))
+	fmt.Printf("BOUNDED-RESULT {\"cases\": %d, \"failures\": %d, \"bound\": \"26x26 key/value strings written as quoted Go literals in 5 term positions; unquoted words without special characters; %d filter and %d projection texts that must be rejected; every text of length <= %d over %q for panics, hangs and error offsets\", \"exhaustive\": false}\n", n, fails, len(rejects), len(projRejects), maxLen, alpha)
 }
